@@ -49,7 +49,7 @@ pub fn get_atom(config: &SmartCalcConfig, data: &str, group_item: &[Regex]) -> V
                     match (price, config.get_currency(splited_data[splited_data.len() - 1].to_string())) {
                         (Some(price), Some(currency_info)) => TokenType::Money(price, currency_info.clone()),
                         _ => {
-                            log::info!("Currency information not found, {}", splited_data[1]);
+                            log::info!("Currency information not found, {}", data);
                             continue
                         }
                     }
